@@ -22,7 +22,7 @@ def sh(cmd, **kw):
     return subprocess.run(cmd, capture_output=True, text=True, **kw)
 
 
-def main(delivery, out_json, suite=True):
+def main(delivery, out_json, suite=True, neutral=False):
     delivery = Path(delivery)
     base = json.loads(Path('/root/.vp/BASELINE.json').read_text())
     stable = set(base['stable_pass'])
@@ -41,8 +41,14 @@ def main(delivery, out_json, suite=True):
         if a.returncode != 0:
             res['apply_err'] = a.stderr[-500:]
             return res
-        d1 = sh(['/venv/bin/python', str(seed / 'demo.py')], cwd=str(wt), env=env, timeout=1800)
-        res['demo_with_patch'] = {'exit': d1.returncode, 'tail': (d1.stdout + d1.stderr).strip()[-600:]}
+        if neutral:
+            # behaviour-preserving patch: no demonstration; the author's own old-vs-new comparison must still pass
+            if (seed / 'compare.py').exists():
+                c1 = sh(['/venv/bin/python', str(seed / 'compare.py')], cwd=str(wt), env=env, timeout=3000)
+                res['compare_with_patch'] = {'exit': c1.returncode, 'tail': (c1.stdout + c1.stderr).strip()[-400:]}
+        else:
+            d1 = sh(['/venv/bin/python', str(seed / 'demo.py')], cwd=str(wt), env=env, timeout=1800)
+            res['demo_with_patch'] = {'exit': d1.returncode, 'tail': (d1.stdout + d1.stderr).strip()[-600:]}
         if suite:
             junit = tmp / 'junit.xml'
             t = sh(['/venv/bin/python', '-m', 'pytest', '-ra', '-q', '-p', 'no:cacheprovider', '--timeout=900',
@@ -82,6 +88,9 @@ def main(delivery, out_json, suite=True):
                 missing = sorted(stable - passed)
             res['stable_missing'] = missing
             res['suite_ok'] = not missing
+        if neutral:
+            res['confirmed'] = bool(res.get('suite_ok', True))
+            return res
         sh(['git', '-C', str(wt), 'apply', '-R', str(seed / 'patch.diff')])
         d0 = sh(['/venv/bin/python', str(seed / 'demo.py')], cwd=str(wt), env=env, timeout=1800)
         res['demo_without_patch'] = {'exit': d0.returncode, 'tail': (d0.stdout + d0.stderr).strip()[-300:]}
@@ -95,5 +104,5 @@ def main(delivery, out_json, suite=True):
 
 if __name__ == '__main__':
     args = [a for a in sys.argv[1:] if not a.startswith('--')]
-    r = main(args[0], args[1], suite='--no-suite' not in sys.argv)
-    print(json.dumps({k: r.get(k) for k in ('applies', 'confirmed', 'suite_summary', 'stable_missing')}))
+    r = main(args[0], args[1], suite='--no-suite' not in sys.argv, neutral='--neutral' in sys.argv)
+    print(json.dumps({k: r.get(k) for k in ('applies', 'confirmed', 'suite_summary', 'stable_missing', 'compare_with_patch')}))
